@@ -47,10 +47,12 @@ EXTRA = {
            "short-read files (YAML key illumina bam).",
     "C11": "Stage corners holds parametrised noise-free templates (event order, micro-introns, threaded ends, adjacent "
            "clusters, similar novel isoforms, overlapping unspliced transcripts, ragged polyA ends, introns on both "
-           "sides of a single-exon gene, a read-through tip); stage contig_start has reads aligned from the first bases "
+           "sides of a single-exon gene, a read-through tip, unspliced tailed reads that begin inside the last intron of "
+           "a spliced transcript); stage contig_start has reads aligned from the first bases "
            "of a contig.",
     "C12": "Further variants: per-contig BAM files with pruned headers, placed unmapped records, the reference as a "
-           "soft-masked copy; stage tie_weights puts fractional weights at rounding borders.",
+           "soft-masked copy; history steps that replace the annotation by a file with an earlier time stamp; stage "
+           "tie_weights puts fractional weights at rounding borders.",
     "C14": "Tails aligned as terminal exons of their own; the short reads given as one file or split into two files in "
            "another order must give the same result.",
     "C16": "Hard clips outside the soft clips must not change anything; the tail position may lie beyond the retained "
